@@ -283,3 +283,24 @@ package transport
 //@ loop 1 invariant gCWptr[old(gCW) + 2] == ptr(headerBuf) && gCWlen[old(gCW) + 2] == 18
 //@ loop 1 invariant gCW > old(gCW) + 2 ==> gCWptr[gCW] + gCWlen[gCW] == ptr(buf) + sent
 //@ loop 1 invariant sent > 0 ==> gCW > old(gCW) + 2
+
+// ---------------------------------------------------------------- C15 / C18: the single chunk of a witness snapshot
+// A witness snapshot travels as ONE chunk (id 0 of 1) that names the snapshot (index, term, membership) and the sender
+// and receiver of the message, is marked Witness, and whose announced sizes are exactly the bytes it carries; a message
+// for a witness never goes through the file splitter.
+//@ extern github.com/lni/dragonboat/v4/internal/rsm GetWitnessSnapshot
+//@ func getWitnessChunk [C15 C18]
+//@ noframe
+//@ ensures result1 == nil ==> len(result0) == 1 && result0[0].ChunkId == 0 && result0[0].ChunkCount == 1 && result0[0].FileChunkId == 0 && result0[0].FileChunkCount == 1
+//@ ensures result1 == nil ==> result0[0].Witness && result0[0].Index == m.Snapshot.Index && result0[0].Term == m.Snapshot.Term && result0[0].ShardID == m.ShardID && result0[0].ReplicaID == m.To && result0[0].From == m.From
+//@ ensures result1 == nil ==> result0[0].ChunkSize == len(result0[0].Data) && result0[0].FileSize == len(result0[0].Data) && result0[0].BinVer == raftio.TransportBinVersion
+//@ func splitSnapshotMessage [C15 C18]
+//@ noframe
+//@ nobounds
+//@ requires !m.Snapshot.Witness ==> m.Snapshot.FileSize > 0 && m.Snapshot.FileSize < 1152921504606846976 && len(m.Snapshot.Files) < 1048576 && snapshotChunkSize > 0
+//@ requires !m.Snapshot.Witness ==> (forall k int :: 0 <= k && k < len(m.Snapshot.Files) ==> m.Snapshot.Files[k] != nil && m.Snapshot.Files[k].FileSize > 0 && m.Snapshot.Files[k].FileSize < 1099511627776)
+//@ ensures result1 == nil && m.Snapshot.Witness ==> len(result0) == 1 && result0[0].Witness && result0[0].ChunkCount == 1
+// which chunks of a stream go through the incremental validator: every chunk of the main image but the first (the first
+// carries the header and starts the validator) -- never a chunk of an external file
+//@ func (c *Chunk) shouldValidate [C15 C14]
+//@ ensures result == (c.validate && !chunk.HasFileInfo && chunk.ChunkId != 0)
